@@ -948,6 +948,63 @@ func overlap(a, b region) bool {
 	return a.start < b.start+b.size && b.start < a.start+a.size
 }
 
+// scramble overwrites every mutable location reachable from the addressable value v
+// (children first, then the location itself).
+func scramble(v reflect.Value, depth int) {
+	if depth > 40 {
+		return
+	}
+	switch v.Kind() {
+	case reflect.Int, reflect.Int8, reflect.Int16, reflect.Int32, reflect.Int64:
+		v.SetInt(v.Int() + 100)
+	case reflect.Uint, reflect.Uint8, reflect.Uint16, reflect.Uint32, reflect.Uint64:
+		v.SetUint(v.Uint() + 100)
+	case reflect.String:
+		v.SetString(v.String() + "~")
+	case reflect.Bool:
+		v.SetBool(!v.Bool())
+	case reflect.Ptr:
+		if v.IsNil() {
+			v.Set(reflect.New(v.Type().Elem()).Convert(v.Type()))
+			return
+		}
+		scramble(v.Elem(), depth+1)
+		v.Set(reflect.Zero(v.Type()))
+	case reflect.Slice:
+		n := v.Len()
+		if v.Cap() > 0 {
+			full := v.Slice(0, v.Cap())
+			for i := 0; i < full.Len(); i++ {
+				scramble(full.Index(i), depth+1)
+			}
+		}
+		v.Set(reflect.MakeSlice(v.Type(), n+1, n+1))
+	case reflect.Map:
+		if v.Type().Key().Kind() != reflect.String {
+			return
+		}
+		extra := reflect.ValueOf("~new").Convert(v.Type().Key())
+		if v.IsNil() {
+			m := reflect.MakeMap(v.Type())
+			m.SetMapIndex(extra, reflect.Zero(v.Type().Elem()))
+			v.Set(m)
+			return
+		}
+		for _, k := range sortedKeys(v) {
+			tmp := reflect.New(v.Type().Elem()).Elem()
+			tmp.Set(v.MapIndex(k))
+			scramble(tmp, depth+1)
+			v.SetMapIndex(k, tmp)
+		}
+		v.SetMapIndex(extra, reflect.Zero(v.Type().Elem()))
+		v.Set(reflect.Zero(v.Type()))
+	case reflect.Struct:
+		for i := 0; i < v.NumField(); i++ {
+			scramble(open(v.Field(i)), depth+1)
+		}
+	}
+}
+
 func CheckClone[T any](o *Out, id string, inst fp.Clone[T], p Opt) {
 	raw := Opt{}
 	d := buildDomain[T](p)
@@ -996,6 +1053,21 @@ func CheckClone[T any](o *Out, id string, inst fp.Clone[T], p Opt) {
 					failShare = fmt.Sprintf("Clone(%s): the clone's %s at path %s is storage of the original (%s at path %s)", d.descs[i], b.kind, b.path, a.kind, a.path)
 				}
 			}
+		}
+		// mutate and compare: overwrite everything reachable from the clone, the original must
+		// not notice; then the other way round on a fresh pair
+		scramble(cv, 0)
+		if now := dumpOf(ov, raw); now != pre && failShare == "" {
+			failShare = fmt.Sprintf("Clone(%s): after overwriting every location reachable from the clone the original reads %s", d.descs[i], now)
+		}
+		orig2 := new(T)
+		*orig2 = d.mk[i]()
+		cl2 := new(T)
+		*cl2 = inst.Clone(*orig2)
+		before := dumpOf(reflect.ValueOf(cl2).Elem(), raw)
+		scramble(reflect.ValueOf(orig2).Elem(), 0)
+		if now := dumpOf(reflect.ValueOf(cl2).Elem(), raw); now != before && failShare == "" {
+			failShare = fmt.Sprintf("Clone(%s): after overwriting every location reachable from the original the clone reads %s, before %s", d.descs[i], now, before)
 		}
 	}
 	o.res(id, "clone-equal", n, failEq)
